@@ -36,8 +36,8 @@ Print Assumptions c08_dirty_covers_buf.
    Witness: A logs and flushes, C logs, A clears the flag, C reads false and acknowledges. *)
 Theorem c08_refuted :
   exists progs sched c,
-    In c (acked (run_sched (mkVariant false true) progs sched)) /\
-    ~ In c (file (run_sched (mkVariant false true) progs sched)).
+    In c (acked (run_sched (mkVariant false true false true) progs sched)) /\
+    ~ In c (file (run_sched (mkVariant false true false true) progs sched)).
 Proof. exact store_after_unlock_refuted. Qed.
 Print Assumptions c08_refuted.
 
@@ -45,10 +45,28 @@ Print Assumptions c08_refuted.
    client.out without the pre-write; one connection suffices (SET ... and SUBSCRIBE in one packet). *)
 Theorem c08_detach_refuted :
   exists progs sched c,
-    In c (acked (run_sched (mkVariant true false) progs sched)) /\
-    ~ In c (file (run_sched (mkVariant true false) progs sched)).
+    In c (acked (run_sched (mkVariant true false false true) progs sched)) /\
+    ~ In c (file (run_sched (mkVariant true false false true) progs sched)).
 Proof. exact detach_no_prewrite_refuted. Qed.
 Print Assumptions c08_detach_refuted.
+
+(* Two other statement orders the source check recognises (neither is tile38's; each was offered as a
+   seeded change): the background flusher consuming the flag before it holds the lock ... *)
+Theorem c08_flusher_swap_refuted :
+  exists progs sched c,
+    In c (acked (run_sched (mkVariant true true true true) progs sched)) /\
+    ~ In c (file (run_sched (mkVariant true true true true) progs sched)).
+Proof. exact flusher_swap_refuted. Qed.
+Print Assumptions c08_flusher_swap_refuted.
+
+(* ... and the flag raised by handleInputCommand after writeAOF instead of inside writeAOF: a write made
+   by a Lua script (scripts.go calls writeAOF itself) is acknowledged with the flag clear. *)
+Theorem c08_flag_in_dispatcher_refuted :
+  exists progs sched c,
+    In c (acked (run_sched (mkVariant true true false false) progs sched)) /\
+    ~ In c (file (run_sched (mkVariant true true false false) progs sched)).
+Proof. exact flag_in_dispatcher_refuted. Qed.
+Print Assumptions c08_flag_in_dispatcher_refuted.
 
 (* non-vacuity: a schedule of the repaired order in which both commands are acknowledged (and flushed) *)
 Example c08_nonvacuous :
